@@ -66,6 +66,7 @@ structure D where
   created : List String := []           -- spec: the resources `r` with `nodeExists d.h r`
   ntype : List (String × String) := []  -- the resource type each node was created with (type of the creating entry)
   cmaps : List (Nat × List (String × String)) := []   -- the caller's own attachment map per entry id (WithAttachments argument)
+  manyDone : Bool := false              -- a `many` op ran: the node list is not compared any more
   panicH : List Nat := []               -- live entries with a panicking exit handler registered
   abandoned : List Nat := []            -- … whose Exit was cut short by that handler (see `exitOp`)
 
@@ -254,6 +255,7 @@ def step (spec : Bool) (d : D) (ts0 : List String) (_ : String) : D × Option St
       else ({ d with pst := EntryPool.resetNodes d.pst, ntype := [] }, none)
   -- `stat.ResourceNodeList()`
   | ["nodes"] =>
+      if d.manyDone then (d, some "?") else
       let names := if spec then d.created else (d.pst.nodes.map (·.1)).eraseDups
       (d, some (showList ((names.toArray.qsort (· < ·)).toList)))
   | ["rule", "iso", res, T] => match T.toNat? with
@@ -301,6 +303,18 @@ def step (spec : Bool) (d : D) (ts0 : List String) (_ : String) : D × Option St
       | some id => match d.cmaps.lookup id with
         | some m => (d, some (showKV m))
         | none => (d, some "bad-op")
+      | none => (d, some "bad-op")
+  -- `many <n>`: n never-seen resources `many-<k>`, each entered (outbound, default chain) and exited at once: they account
+  -- on their own nodes only (never read) and on nothing else; what matters is that the node map has grown
+  | ["many", n] => match n.toNat? with
+      | some _ => ({ d with manyDone := true }, none)
+      | none => (d, some "bad-op")
+  -- `entry.SetError(err)` called directly (non-nil error): the same as `api.TraceError`
+  | ["seterr", id, err] => match id.toNat? with
+      | some id =>
+        if !known d spec id || err = "nil" then (d, some "bad-op") else
+        if d.abandoned.contains id then (d, none) else
+        (apply d spec (.trace id (some err)), none)
       | none => (d, some "bad-op")
   | ["trace", id, err] => match id.toNat? with
       | some id =>
